@@ -269,6 +269,23 @@ def r5_ws_oversize_arm(ctx):
             cont = any(rb_ in reach or rb_ in bt.reach_from(s.bb) for rb_ in recv_bbs)
             R.check(cont, "C07.R5", "background_task:continues", "after the rejection the receive loop continues", "after the rejection the connection loop cannot receive again", where(s))
 
+    # the rejection itself is not subject to the *response* limit: MethodSink::send_error serialises the error object
+    # directly; if it went through the bounded response builder a small max_response_body_size would turn the -32007
+    # into -32008, i.e. the answer to an oversized request would depend on the other limit
+    se_bodies = F.find(r"^jsonrpsee_core::server::helpers::MethodSink::send_error(::\{closure#0\})?$")
+    if not se_bodies:
+        raise AnchorLost("MethodSink::send_error")
+    reads = []
+    for x in se_bodies:
+        R.fn(x)
+        reads += [c for c in x.calls_to(r"MethodResponse::(response|subscription_response|error)$|MethodSink::max_response_size$")]
+        for bi, blk in enumerate(x.blocks):
+            if blk.get("cleanup"):
+                continue
+            for st in blk["st"]:
+                if st["s"] == "assign" and "max_response_size" in str(st["rv"]):
+                    reads.append(None)
+    R.check(not reads, "C07.R5", "send_error:independent-of-response-limit", "the oversize rejection is serialised without consulting the response limit", "MethodSink::send_error consults the response limit (%s): with a small max_response_body_size the `request too big` (-32007) rejection is replaced by `response too big` (-32008), so the answer to an oversized request depends on the response limit" % sorted({short(c.name()) if c else "field max_response_size" for c in reads}), "%s:%d" % (se_bodies[0].file, se_bodies[0].lo))
 
 
 def r6_size_gates(ctx):
@@ -277,13 +294,20 @@ def r6_size_gates(ctx):
     limit_gates(ctx, "C07.R6", WANT, (SERVER, "jsonrpsee_core"), 1, "request size")
 
 
+def r7_server_builder_fields(ctx):
+    """server builders that rebuild themselves (set_rpc_middleware, set_http_middleware, to_service_builder, ...) copy
+    every setting from the same field"""
+    from .common import builder_field_crossing
+    builder_field_crossing(ctx, "C07.R7", r"^jsonrpsee_server::", 3)
+
+
 def rcfg_config_verbatim(ctx):
     """the configured `max_request_body_size` reaches the ServerConfig unchanged (setter stores its argument, build()/Clone copy it)"""
     from .common import config_field_integrity
     config_field_integrity(ctx, "C07.CFG", "max_request_body_size")
 
 
-RULES = [r1_ws_frame_limit, r2_http_limit, r3_plumbing, r4_limit_before_read, r5_ws_oversize_arm, r6_size_gates, rcfg_config_verbatim]
+RULES = [r1_ws_frame_limit, r2_http_limit, r3_plumbing, r4_limit_before_read, r5_ws_oversize_arm, r6_size_gates, r7_server_builder_fields, rcfg_config_verbatim]
 
 LEVEL_TEXT = (
     "Structural necessary conditions decided exactly from the type-checked program: which configuration field every "
